@@ -152,6 +152,202 @@ def put_cb(fails: bool, dryRun: bool, data: str) -> bool:
     return outcome == ('writer-error' if fails else 'ok')
 
 
+# ---- concurrent writers of the same module (the "schedules" part of the quantifier) -----------------------------------
+# Two real putData() calls run in two threads over one shared file-system model. Every system call of the model is a
+# yield point; between two yield points exactly one thread runs. Which thread proceeds at each point where both are
+# runnable is decided by the SYMBOLIC schedule bits b0..b15 in the (traced) main thread, so CrossHair/z3 explore every
+# interleaving of the two call sequences; the worker threads themselves handle concrete data only.
+import threading
+
+
+class _Abort(BaseException):
+    pass
+
+
+class Sched(object):
+    def __init__(self):
+        self.cv = threading.Condition()
+        self.turn = None
+        self.waiting = {}
+        self.done = {}
+        self.abort = False
+        self.order = []
+        self.inject = None
+
+    def point(self, op, faultable=False):
+        tid = getattr(threading.current_thread(), 'verif_tid', None)
+        if tid is None:
+            return                      # main thread (set-up / judging): not scheduled
+        with self.cv:
+            self.waiting[tid] = (op, faultable)
+            self.cv.notify_all()
+            while self.turn != tid and not self.abort:
+                self.cv.wait(5.0)
+            if self.abort:
+                raise _Abort()
+            self.turn = None
+            del self.waiting[tid]
+            self.order.append((tid, op))
+            inj, self.inject = self.inject, None
+            return inj
+
+    def finish(self, tid, outcome):
+        with self.cv:
+            self.done[tid] = outcome
+            self.cv.notify_all()
+
+
+def _race(make_writer, datas, comments, fs, bits, k=0, kind=1, shortn=0):
+    """run len(datas) putData('M', ...) calls concurrently under the schedule `bits`; returns outcomes by thread.
+    The single fault (k-th faultable system call of the combined sequence) is decided HERE, in the traced main thread:
+    symbolic values never reach the worker threads."""
+    s = Sched()
+    nfaultable = 0
+    sn = 0
+    for v in range(1, 4):
+        if shortn == v:
+            sn = v
+    fs.shortn = sn
+    n = len(datas)
+
+    def work(tid):
+        try:
+            make_writer().putData('M', datas[tid], comments=comments)
+            out = 'ok'
+        except error.PySmiWriterError:
+            out = 'writer-error'
+        except _Abort:
+            out = 'aborted'
+        except Exception as exc:
+            out = 'other-exception %r' % (exc,)
+        s.finish(tid, out)
+
+    ts = []
+    for tid in range(n):
+        t = threading.Thread(target=work, args=(tid,))
+        t.daemon = True
+        t.verif_tid = tid
+        ts.append(t)
+    fs.sched = s
+    i = 0
+    ok = False
+    try:
+        for t in ts:
+            t.start()
+        while True:
+            with s.cv:
+                guard = 0
+                while len(s.waiting) + len(s.done) < n:
+                    s.cv.wait(5.0)
+                    guard += 1
+                    if guard > 6:
+                        raise RuntimeError('scheduler stalled')
+                if len(s.done) == n:
+                    break
+                runnable = sorted(s.waiting)
+            if len(runnable) == 2:
+                if i >= len(bits):
+                    raise RuntimeError('schedule longer than the %d decision bits' % len(bits))
+                pick = runnable[1] if bits[i] else runnable[0]      # symbolic decision (main thread, traced)
+                i += 1
+            else:
+                pick = runnable[0]
+            with s.cv:
+                if s.waiting[pick][1]:
+                    nfaultable += 1
+                    if nfaultable == k:
+                        s.inject = 'error' if kind == 1 else 'short'
+                s.turn = pick
+                s.cv.notify_all()
+                guard = 0
+                while s.turn is not None:
+                    s.cv.wait(5.0)
+                    guard += 1
+                    if guard > 6:
+                        raise RuntimeError('scheduler stalled')
+        ok = True
+    finally:
+        if not ok:
+            with s.cv:
+                s.abort = True
+                s.cv.notify_all()
+        for t in ts:
+            t.join(10.0)
+        fs.sched = None
+    return [s.done[t] for t in range(n)], s.order
+
+
+RACE_DATA = [('a\u20acb', 'XY'), ('same', 'same'), ('', 'longer-text-of-the-other-writer')]
+
+
+def _race_judge(fs, dest, old, news, outs, may_remove):
+    for o in outs:
+        if o not in ('ok', 'writer-error'):
+            return False
+    for p in fs.files:
+        if p != dest:
+            return False                        # a temporary file survived the race
+    cur = fs.files.get(dest)
+    if cur is None:
+        # nothing under the module's name: only if nobody succeeded (or a byte-compile failure removed it)
+        return may_remove or (old is None and 'ok' not in outs)
+    if 'ok' in outs:
+        return cur in news                      # complete text of ONE of the writers, never a mixture
+    return cur == old or cur in news
+
+
+def race_file(b0: bool, b1: bool, b2: bool, b3: bool, b4: bool, b5: bool, b6: bool, b7: bool, b8: bool, b9: bool,
+              b10: bool, b11: bool, b12: bool, b13: bool, b14: bool, b15: bool,
+              k: int, kind: int, shortn: int, dest_exists: bool, dir_exists: bool, di: int) -> bool:
+    """
+    requires: 0 <= k <= 14 and 1 <= kind <= 2 and 0 <= shortn <= 3 and 0 <= di < len(RACE_DATA)
+    requires: dir_exists or not dest_exists
+    """
+    dest = '/d/M.json'
+    fs = _setup(0, 1, 0, dest_exists, dir_exists, dest)
+    old = fs.files.get(dest)
+    localfile.os = FakeOs(fs)
+    localfile.tempfile = FakeTempfile(fs)
+    datas = RACE_DATA[0]
+    for j in range(len(RACE_DATA)):
+        if di == j:
+            datas = RACE_DATA[j]
+    news = [expected_bytes(d, False) for d in datas]
+    outs, order = _race(lambda: localfile.FileWriter('/d').setOptions(suffix='.json'), datas, (), fs,
+                        [b0, b1, b2, b3, b4, b5, b6, b7, b8, b9, b10, b11, b12, b13, b14, b15], k, kind, shortn)
+    return _race_judge(fs, dest, old, news, outs, False)
+
+
+def race_py(b0: bool, b1: bool, b2: bool, b3: bool, b4: bool, b5: bool, b6: bool, b7: bool, b8: bool, b9: bool,
+            b10: bool, b11: bool, b12: bool, b13: bool, b14: bool, b15: bool,
+            k: int, kind: int, shortn: int, dest_exists: bool, dir_exists: bool, pyc: int, di: int) -> bool:
+    """
+    requires: 0 <= k <= 14 and 1 <= kind <= 2 and 0 <= shortn <= 3 and 0 <= di < len(RACE_DATA)
+    requires: dir_exists or not dest_exists
+    requires: pyc == 0 or pyc == 3 or pyc == 4
+    """
+    dest = '/d/M.py'
+    fs = _setup(0, 1, 0, dest_exists, dir_exists, dest)
+    old = fs.files.get(dest)
+    pyfile.os = FakeOs(fs)
+    pyfile.tempfile = FakeTempfile(fs)
+    pyfile.py_compile = FakePyCompile(fs, pyc)
+    datas = RACE_DATA[0]
+    for j in range(len(RACE_DATA)):
+        if di == j:
+            datas = RACE_DATA[j]
+    news = [expected_bytes(d, False) for d in datas]
+
+    def mk():
+        w = pyfile.PyFileWriter('/d')
+        if pyc == 4:
+            w.setOptions(pyCompile=False)
+        return w
+
+    outs, order = _race(mk, datas, (), fs, [b0, b1, b2, b3, b4, b5, b6, b7, b8, b9, b10, b11, b12, b13, b14, b15], k, kind, shortn)
+    return _race_judge(fs, dest, old, news, outs, pyc == 3)
+
+
 def conditions(prop, tier):
     n = 3 if tier == 'quick' else 5
     out = []
@@ -173,6 +369,40 @@ def conditions(prop, tier):
                     extra_pre=['len(data) <= %d' % n], timeout=t, bounds=CB))
     out.append(dict(name='C13.CallbackWriter', fn='put_cb', fixed=dict(), extra_pre=['len(data) <= %d' % n], timeout=t,
                     bounds='callback raises or not, dryRun, data len<=%d' % n))
+    RB = ('two concurrent putData() of the same module over one file-system model; every system call is a yield point; '
+          'all interleavings via 16 symbolic schedule bits; ')
+    for di in range(len(RACE_DATA)):
+        for de in (False, True):
+            out.append(dict(name='C13.race.FileWriter.nofault.d%d.e%d' % (di, de), fn='race_file',
+                            fixed=dict(k=0, kind=1, shortn=0, di=di, dest_exists=de, dir_exists=True), timeout=t,
+                            bounds=RB + 'no fault; texts %r' % (RACE_DATA[di],)))
+    out.append(dict(name='C13.race.FileWriter.nodir', fn='race_file',
+                    fixed=dict(k=0, kind=1, shortn=0, di=0, dest_exists=False, dir_exists=False), timeout=t,
+                    bounds=RB + 'destination directory missing (makedirs race); no fault'))
+    # single fault at the k-th faultable system call of the combined sequence, sharded by k (and by the first schedule bit)
+    for kind in (1, 2):
+        for lo, hi in ((1, 3), (4, 5), (6, 7), (8, 10), (11, 14)):
+            for b0 in (False, True):
+                out.append(dict(name='C13.race.FileWriter.fault-k%d.%d-%d.s%d' % (kind, lo, hi, b0), fn='race_file',
+                                fixed=dict(kind=kind, di=0, dir_exists=True, dest_exists=True, b0=b0),
+                                extra_pre=['%d <= k <= %d' % (lo, hi)] + (['shortn <= 1'] if kind == 2 else ['shortn == 0']),
+                                timeout=t * 2, bounds=RB + 'one fault (%s) at the k-th system call of the combined sequence, %d<=k<=%d symbolic'
+                                % ('error' if kind == 1 else 'short write of 0..1 bytes', lo, hi)))
+    out.append(dict(name='C13.race.PyFileWriter.nofault.pyc0', fn='race_py',
+                    fixed=dict(k=0, kind=1, shortn=0, di=0, dest_exists=True, dir_exists=True, pyc=0), timeout=t,
+                    bounds=RB + 'no I/O fault; byte-compile ok'))
+    for b0 in (False, True):
+        for b1 in (False, True):
+            out.append(dict(name='C13.race.PyFileWriter.nofault.pyc3.s%d%d' % (b0, b1), fn='race_py',
+                            fixed=dict(k=0, kind=1, shortn=0, di=0, dest_exists=True, dir_exists=True, pyc=3, b0=b0, b1=b1), timeout=t * 2,
+                            bounds=RB + 'no I/O fault; byte-compilation crashes in both writers (clean-up race)'))
+    if tier != 'quick':
+        for lo, hi in ((1, 3), (4, 5), (6, 7), (8, 10), (11, 14)):
+            for b0 in (False, True):
+                out.append(dict(name='C13.race.PyFileWriter.fault-k1.%d-%d.s%d' % (lo, hi, b0), fn='race_py',
+                                fixed=dict(kind=1, shortn=0, di=0, dir_exists=True, dest_exists=True, pyc=0, b0=b0),
+                                extra_pre=['%d <= k <= %d' % (lo, hi)],
+                                timeout=t * 2, bounds=RB + 'one fault at the k-th system call of the combined sequence'))
     return out
 
 
@@ -181,4 +411,6 @@ def selftests(prop):
             ('put_file', dict(k=1, kind=1, shortn=0, dest_exists=False, dir_exists=False, with_comments=False, dryRun=False, di=3, data='')),
             ('put_py', dict(k=0, kind=1, shortn=0, dest_exists=False, dir_exists=True, with_comments=False, dryRun=False, pyc=1, di=-1, data='x')),
             ('put_py', dict(k=0, kind=1, shortn=0, dest_exists=False, dir_exists=True, with_comments=False, dryRun=True, pyc=0, di=4, data='')),
-            ('put_cb', dict(fails=True, dryRun=False, data='x'))]
+            ('put_cb', dict(fails=True, dryRun=False, data='x')),
+            ('race_file', dict(dict(('b%d' % i, i % 2 == 0) for i in range(16)), k=0, kind=1, shortn=0, dest_exists=True, dir_exists=True, di=0)),
+            ('race_py', dict(dict(('b%d' % i, i % 3 == 0) for i in range(16)), k=0, kind=1, shortn=0, dest_exists=False, dir_exists=False, pyc=0, di=2))]
